@@ -27,7 +27,7 @@ ASSUMPTIONS = ['pysam BAM writing/reading is the storage; its own refusal of nam
                'expected field values come from the raw reads through the hand-written layout table and the independent 52-letter code']
 MIN_NONTRIVIAL = {'quick': 300, 'thorough': 30000}
 REQUIRED_MONITORS = ['totality:single_chars', 'totality:pairs', 'roundtrip:reads_decoded', 'roundtrip:fields_compared',
-                     'length:refused_loudly', 'length:stored_exactly', 'history:fitting_then_overlong_in_one_library', 'roundtrip:cell_index_zero', 'roundtrip:mates_digested_separately', 'roundtrip:alignment_with_preexisting_fields']
+                     'length:refused_loudly', 'length:stored_exactly', 'history:fitting_then_overlong_in_one_library', 'roundtrip:cell_index_zero', 'roundtrip:mates_digested_separately', 'roundtrip:alignment_with_preexisting_fields', 'roundtrip:umi_from_an_earlier_demultiplexing_run']
 SHARD_TIMEOUT = {'quick': 600, 'thorough': 3600}
 PHRED_TAGS = {'QX', 'QT', 'RQ', 'BZ', 'QM', 'lq', 'aQ', 'AQ', 'E2', 'EQ', 'eq', 'is', 'H1', 'H3'}
 
@@ -139,11 +139,11 @@ def run_library(acc, d, dmx, strategy, name, wl, iwl, r, lib, n, single, case_id
     pairs = []
     for i in range(n):
         lay = LY.layout_for_generation(name, r)
-        hk = r.choice(['illumina'] * 5 + ['scmo', '3dec', 'illumina_numeric'])
+        hk = r.choice(['illumina'] * 5 + ['scmo', 'scmo_umi', '3dec', 'illumina_numeric'])
         index_seq = r.choice([b for b, _ in iwl[fq.INDEX_ALIAS]])
         if hk == 'illumina_numeric':
             index_seq = str(r.randint(1, 96))
-        base_kind = hk if hk in ('scmo', '3dec') else 'illumina'
+        base_kind = hk if hk in ('scmo', 'scmo_umi', '3dec') else 'illumina'
         wl_here = wl.get(lay['alias'], [])
         if i == 0 and any(ix == 0 for _, ix in wl_here):
             wl_here = [(b, ix) for b, ix in wl_here if ix == 0]      # the cell with index 0 is always part of the library
@@ -307,9 +307,15 @@ def run_library(acc, d, dmx, strategy, name, wl, iwl, r, lib, n, single, case_id
                 exp['aA'] = pair['index']
             exp['LY'] = lib
             coord = f"NS500413:32:H14TKBGXX:2:11101:{pid}:{exp['CY']}"  # the leading @ is the FASTQ record marker, not part of the instrument name
-        elif pair['hk'] == 'scmo':
+        elif pair['hk'] in ('scmo', 'scmo_umi'):
             exp.update({'Is': 'NS500413', 'RN': '32', 'Fc': 'H14TKBGXX', 'La': '2', 'Ti': '11101', 'CX': str(pid), 'aa': 'ATCACG', 'aA': 'ATCACG', 'aI': '1', 'LY': lib})
             coord = None
+            if pair['hk'] == 'scmo_umi' and not lay['umi']:
+                # the name came out of an earlier demultiplexing run and carries that run's UMI; a strategy without a UMI of its own leaves it
+                # in place, and it has to come out of the decoder as it went into the first encoder
+                exp['RX'], exp['RQ'] = fq.requeued_umi(pid)
+                exp['RQ'] = fq.hsq_decode(fq.hsq(exp['RQ']))
+                acc.count('roundtrip:umi_from_an_earlier_demultiplexing_run')
         else:
             exp.update({'Is': 'UNK', 'Fc': 'UNK', 'CX': '-1', 'CY': '-1', 'Ti': str(pid), 'LY': lib})
             coord = None
